@@ -155,8 +155,11 @@ func (d *intDecoder) decodeStreamByte(s *Stream) ([]byte, error) {
 			return num, nil
 		case '0':
 			s.cursor++
-			if s.char() == nul {
-				s.read()
+			for s.char() == nul {
+				// (a Read may deliver nothing without being at the end of the input)
+				if !s.read() {
+					break
+				}
 			}
 			// in a stream a digit after the leading zero starts the next value;
 			// a fraction or exponent means the literal is not an integer
